@@ -141,7 +141,8 @@ reg("C01", harness="c01_deflate", level="exploration", deadline=(400, 2400), ext
                "(first call ample or refused at 5 output sizes, text/incompressible/mixed up to 2 MiB, levels x level buffers): the second call must "
                "decode to its input and equal a fresh object's output byte for byte. Encoder part: the ICF->bits kernels (base/_04/_06) on EVERY assignment "
                "of 16 token realisations (widths 2..48, dense around the per-lane limits) to the four lanes of a half-vector x both halves x bit "
-               "phases 0..7, bit-exact against an independent concatenation of the codes.",
+               "phases 0..7, bit-exact against an independent concatenation of the codes. ADLEREDGE inputs (Adler-32 low word exactly 0, 1, 65520 at the end of the input "
+               "or at a chunk boundary) go through the full product, so the zlib trailer is checked at the wrap-around points of the modulus.",
     level_note="inputs outside the families are not covered; trusted: ref/ref_inflate.c (self-checked against zlib), zlib 1.2.13",
     runs={"quick": [dict(flavour="sim", part="sweep"), dict(flavour="sim", part="reuse"), dict(flavour="sim", part="encdf"), dict(flavour="lht", part="sweep")],
           "thorough": [dict(flavour="sim", part="sweep"), dict(flavour="sim", part="reuse"), dict(flavour="sim", part="encdf"), dict(flavour="h8k", part="sweep"), dict(flavour="lht", part="sweep")]},
@@ -155,7 +156,7 @@ reg("C02", harness="c02_inflate", level="exploration", deadline=(400, 2400), ext
                "fixed / balanced-dynamic / depth-15-dynamic blocks alone and after every kind of first block; a match sweep over 15 lengths x both "
                "ends of all 30 distance codes (thorough: all 256 lengths, all 32768 distances) after exact-length stored preambles; code shapes "
                "(depth-15 chains, 13-15-bit lit/len and 11-15-bit distance codes on the used symbols, single-code and empty alphabets, HLIT/HDIST "
-               "at maximum, run-length coded headers, hand-made HCLEN=5); >64 KiB outputs with distance-32768 matches; plus zlib-made streams "
+               "at maximum, run-length coded headers, hand-made HCLEN=5; length 258 spelt as symbol 284 + extra bits 31 next to short-coded literals, in final and non-final blocks); >64 KiB outputs with distance-32768 matches; plus zlib-made streams "
                "(4 levels x 5 strategies x windowBits x memLevel). Each x up to 7 wrapper modes x {stateless, isal_inflate} x kernels "
                "{base,_01,_04} x 4 trailing-junk sizes; output, final state, status, reported input position and state.crc are compared with the reference. "
                "Window-edge part: every small token stream is placed behind a stored filler so that EVERY one of its output positions coincides "
@@ -180,7 +181,9 @@ reg("C07", harness="c07_stream", level="model_checking", deadline=(500, 2400), e
                "timing) is explored exhaustively with deduplication on the byte image of the context for short streams/inputs x levels x wrappers "
                "x CPU levels; on every transition bookkeeping, bytes written and output prefix are checked, at every terminal the result is "
                "compared with the one-shot/reference result, and from EVERY reachable state generous calls must terminate correctly (progress). "
-               "Longer streams (up to >64 KiB output) are covered by the closure of all single split points and all uniform chunk-size pairs.",
+               "Longer streams (up to >64 KiB output) are covered by the closure of all single split points and all uniform chunk-size pairs. "
+               "Stored-fallback family: 300 000 (1 MiB) incompressible / mixed bytes x levels 1-3 x 8 level-buffer sizes (the named ones and the sizes half-way "
+               "between them) x 6 (7) input piece sizes x 3 output piece sizes, every piece in its own mapping that is scribbled once consumed.",
     level_note="chunk sizes outside the alphabets and histories on long streams beyond single-split/uniform are not covered; flush budget <=1 (2) "
                "and <=2 consecutive empty calls bound the deflate graph; a graph that hits its state cap is reported (exhaustive:false).",
     runs={"quick": [dict(flavour="sim", part="inflate"), dict(flavour="sim", part="deflate"), dict(flavour="sim", part="deflate-layers")],
@@ -196,7 +199,8 @@ reg("C14", harness="c14_flush", level="model_checking", deadline=(300, 1800), ex
     level_text="Every flush point reachable in the deflate state graphs (all call histories over in/out/flush/eos alphabets, up to 2 flush requests "
                "at any position, SYNC/FULL in any mix) is checked: marker 00 00 FF FF on a byte boundary, the prefix decodes (reference, prefix "
                "mode) to exactly the input handed over so far, state NEW_HDR; at every terminal each FULL-flush suffix is decoded with an EMPTY "
-               "window. Longer repetitive inputs: one or two flush requests at every call index / pair of indices. One-shot: all ordered pairs "
+               "window. Longer repetitive inputs: one or two flush requests at every call index / pair of indices; exact-fit histories: the flushing call offers "
+               "exactly the room left in the internal staging buffer (read from the live object after 6 kinds of earlier calls) -2..+2 bytes. One-shot: all ordered pairs "
                "from 48 inputs x levels x 3 CPU levels: FULL_FLUSH output is unterminated + byte aligned and concatenates into one valid stream.",
     level_note="flush budget 2 in graphs; positions sweep uses uniform input chunks; trusted: ref/ref_inflate.c window/distance accounting.",
     runs={"quick": [dict(flavour="sim", part="graphs"), dict(flavour="sim", part="positions"), dict(flavour="sim", part="stateless")],
@@ -302,7 +306,8 @@ reg("C17", harness="c17_window", level="exploration", deadline=(300, 1800), extr
                "65537 x 3 dictionary lengths x both routes): the rest of the stream decoded with the dictionary as its only history must be the rest "
                "of the input with no match in front of the dictionary; window-edge family: period-2^w noise with a marker at the cut and two windows back "
                "(hash entry aliasing to distance exactly 2^w, real history byte different), history = earlier call or dictionary, w in {9,10,12,14,15}: "
-               "the result must decode within a 2^w window; wrong-state calls are refused with the context image unchanged.",
+               "the result must decode within a 2^w window; length sweep: 16-symbol noise of period 2^w+1 (every position repeats just outside the window) at EVERY "
+               "length in a range of 4300 consecutive values x levels 1-3 x 6 CPU levels; wrong-state calls are refused with the context image unchanged.",
     level_note="inputs beyond the designed families are not covered; h8k/lht builds are run in the thorough tier; trusted: ref_inflate distance accounting.",
     runs={"quick": [dict(flavour="sim", part="window"), dict(flavour="sim", part="dict")],
           "thorough": [dict(flavour="sim", part="window"), dict(flavour="sim", part="dict"), dict(flavour="h8k", part="window"), dict(flavour="lht", part="window")]},
